@@ -95,6 +95,10 @@ func NewChainDataBase(home string) *ChainDatabase {
 			}
 		}
 		db.LastConfirm.Top.Rank(max_candidate_count, newCandidate)
+		// the all-candidates index is not saved in file and it can not be loaded on demand. It is needed when the top list is ranked again
+		for _, val := range newCandidate {
+			db.LastConfirm.CandidateTrieDB.Set(val)
+		}
 	}
 	return db
 }
